@@ -146,6 +146,10 @@ func RunPlan(t *testing.T, e *Engine, plan interface{}) *Result {
 			func() {
 				defer func() {
 					if r := recover(); r != nil {
+						if v, ok := r.(*Violation); ok {
+							res.V = v // an engine bailing out of a deep call with a typed violation
+							return
+						}
 						res.V = &Violation{Prop: e.Prop, Clause: "panic", Op: "panic", Msg: fmt.Sprintf("%v\n%s", r, debug.Stack())}
 					}
 				}()
